@@ -180,7 +180,7 @@ static sexp_sint_t sexp_object_compare (sexp ctx, sexp a, sexp b, int depth) {
       return sexp_isymbol_compare(ctx, a, b);
     else
 #endif
-      res = (sexp_sint_t)a - (sexp_sint_t)b;
+      res = ((sexp_sint_t)a < (sexp_sint_t)b) ? -1 : ((sexp_sint_t)a > (sexp_sint_t)b);
   }
   return res;
 }
